@@ -5,7 +5,7 @@ from harness.core import cbool, clist, copt, cz, czlist
 
 ID = "C15"
 MODEL_TARGETS = ["C15/Cases.vo"]
-PROOF_TARGETS = ["C15/Lemmas.vo", "C15/Proofs.vo", "C15/Long.vo", "C15/Paths.vo", "C15/Main.vo",
+PROOF_TARGETS = ["C15/Lemmas.vo", "C15/Proofs.vo", "C15/Long.vo", "C15/Paths.vo", "C15/Main.vo", "C15/Layout.vo",
                  "C15/Refuted.vo"]
 OBLIGATION_FILES = ["C15/Refuted.v"]
 PROPS_FILE = "C15/Props.v"
@@ -291,8 +291,9 @@ def _canon(obj, tag):
             return {"rep": "?", "type": "DataFrame", "columns": cols}
         return {"rep": "L", "columns": cols,
                 "index_ok": list(obj.index) == list(range(len(obj))),
-                "rows": [[int(r["case_id"]), _name_out(r["dim_id"]), int(r["reading_id"]),
-                          _enc(r["value"])] for _, r in obj.iterrows()]}
+                "rows": [[int(a), _name_out(b), int(c_), _enc(v)] for a, b, c_, v in zip(
+                    obj["case_id"].tolist(), obj["dim_id"].tolist(), obj["reading_id"].tolist(),
+                    obj["value"].tolist())]}
     if tag == "N":
         kinds = set()
         tindex_ok = True
@@ -605,14 +606,17 @@ def oracle(case, out):
         return "invalid-input-accepted: %s expected %s got %s" % (what, exp["err"], out)
     if "err" in out:
         return "conversion-raised: %s step %d %s: %s" % (what, out["at"], out["err"], out["msg"])
+    if _diff(exp, out, what) is None:
+        return None
+    # from_long_to_nested is known to replace the identifiers by var_i (F-C15-2): compare with
+    # that expectation so that any OTHER departure is still reported under its own clause
     known = _simulate(case, True)
     f = _diff(known, out, what)
     if f:
         return f
-    if known != exp:
-        return ("names-not-preserved-through-long: %s expected columns %s (the long table carries "
-                "the identifiers) got %s" % (what, exp.get("cols"), out.get("cols")))
-    return None
+    return ("names-not-preserved-through-long: %s expected columns %s (the long table carries "
+            "the identifiers) got %s" % (what, exp.get("cols", exp.get("labels")),
+                                         out.get("cols", out.get("labels"))))
 
 
 def nontrivial(case, out):
